@@ -32,6 +32,7 @@ type Item struct {
 	Types  *types.Package
 	Info   *types.Info
 	SSA    *ssa.Package
+	Fset   *token.FileSet
 	Err    error             // type-check error (compile gate)
 	GenSrc map[string]string // generated file name -> text
 }
@@ -43,6 +44,8 @@ type Pipe struct {
 	Items     []*Item
 	BuildTime time.Duration
 	GenTime   time.Duration
+	// PreWrite, if set, runs for each item after its sources are written and before the CLI.
+	PreWrite func(it *Item)
 }
 
 // New copies /repo, builds the CLI from the copy and prepares the corpus module.
@@ -89,6 +92,9 @@ func (p *Pipe) Generate(progs []*corpus.Program, workers int) {
 		_ = os.MkdirAll(it.Dir, 0o755)
 		for name, src := range pr.Emit(nil, nil) {
 			_ = os.WriteFile(filepath.Join(it.Dir, name), []byte(src), 0o644)
+		}
+		if p.PreWrite != nil {
+			p.PreWrite(it)
 		}
 	}
 	var wg sync.WaitGroup
@@ -204,7 +210,7 @@ func (l *Loader) LoadItem(it *Item) {
 	var errs []string
 	conf := types.Config{Importer: mapImporter(l.imp), GoVersion: "go1.24", Error: func(err error) { errs = append(errs, err.Error()) }}
 	tpkg, _ := conf.Check("verifcorpus/"+it.Prog.Pkg, l.Fset, files, info)
-	it.Files, it.Types, it.Info = files, tpkg, info
+	it.Files, it.Types, it.Info, it.Fset = files, tpkg, info, l.Fset
 	if len(errs) > 0 {
 		if len(errs) > 5 {
 			errs = errs[:5]
